@@ -166,7 +166,7 @@ pub fn c09() -> Check {
     Check {
         id: "C09",
         level: "exploration",
-        rule: "iter_membership_state() inspected after every call of chaos-net histories: distinct addresses, own address never active, size bounded by addresses presented, identities only replaced by conflict winners with Rename, payload of Down/superseded senders discarded. Non-trivial: an identity changed or a record bearing the own address was held.",
+        rule: "iter_membership_state() inspected after every call of chaos-net histories: distinct addresses, own address never active, size bounded by addresses presented, identities only replaced by conflict winners with Rename, payload of Down/superseded senders discarded. Non-trivial: an identity changed or a record bearing the own address was held. No record may change unless the call names its address (sender, listed members, apply_many arguments, the subject of a suspicion/forget timer, the member whose probe round a probe timer closes, the instance's own addresses).",
         assumptions: ASSUME,
         required: &["chaos_calls"],
         workloads: vec![
@@ -239,7 +239,7 @@ pub fn c13() -> Check {
     Check {
         id: "C13",
         level: "exploration",
-        rule: "multiset of outstanding timers tracked from submit_after and deliveries; exactly-one probe/periodic timer per active epoch; stale timers must have no effect. Non-trivial: >= 10 timer deliveries.",
+        rule: "multiset of outstanding timers tracked from submit_after and deliveries; exactly-one probe/periodic timer per active epoch; stale timers must have no effect. Non-trivial: >= 10 timer deliveries. set_config attempts to switch periodic tasks on/off at runtime are part of the histories (a task that is enabled must have its timer). 'wrap': 270..600 epoch changes per history through every bump site (idle, change_identity, leave+reuse, auto-rejoin) with the timers of earlier epochs handed back before and after each change, never more than ~60 changes late.",
         assumptions: ASSUME,
         required: &["timers_delivered", "epochs_started"],
         workloads: vec![
